@@ -208,6 +208,60 @@ def setter_rule(ctx, p, bodies, tag, rule="C03-R7"):
     return res
 
 
+
+def deps_purity(ctx):
+    """thorough: the two third-party crates whose code runs inside synthesis (label parsing is
+    outside it, question matching is inside): jlabel-question's matcher closure and jlabel's types.
+    Same rules as R1/R4/R5, on facts extracted with RUSTC_WRAPPER: no static with interior
+    mutability / static mut / thread_local in the crate, no user-written unsafe in the matcher
+    closure, and every callee that leaves the crate is classified (regex_automata / regex_syntax
+    are the audited exception of R5)."""
+    from .. import facts
+    from ..callgraph import CallGraph
+    from ..model import classify
+    for crate, root_pat in (("jlabel_question", "QuestionMatcher>::test"),):
+        try:
+            jp = facts.load("default", crate=crate, deps=True)
+        except Exception as e:  # fail closed
+            ctx.fail("C03-R5", crate, "deps facts", "cannot extract facts of %s: %s" % (crate, e))
+            continue
+        bad_statics = [s for s in jp.statics if s.get("mutable") or not s.get("freeze", True) or s.get("thread_local")]
+        if bad_statics:
+            for s in bad_statics:
+                ctx.fail("C03-R1", s.get("path", crate), "static", "%s has a mutable / interior-mutable / thread-local static" % crate)
+        else:
+            ctx.ok("C03-R1", "thorough: %s has no static mut, non-Freeze static or thread_local (%d statics)" % (crate, len(jp.statics)))
+        jcg = CallGraph(jp)
+        roots = [pth for pth in jp.bodies if pth.endswith(root_pat)]
+        if not roots:
+            ctx.fail("C03-R5", crate, "roots", "no %s implementation found in %s" % (root_pat, crate))
+            continue
+        C = jcg.closure(roots)
+        uns = [u for u in jp.unsafe if not u["span"].get("exp") and any(u.get("fn", "") == k or u.get("fn", "").startswith(k + "::") for k in C)]
+        if uns:
+            for u in uns:
+                ctx.fail("C03-R4", u.get("fn", crate), "unsafe block", "user-written unsafe in the question matcher closure of %s" % crate)
+        else:
+            ctx.ok("C03-R4", "thorough: no user-written unsafe in the %d bodies reached from %s" % (len(C), root_pat))
+        ext = {}
+        for k in C:
+            for name, c_, t in jcg.ext.get(k, []):
+                cls, why = classify(name)
+                ext.setdefault(cls, set()).add(name)
+        audited = {n for n in ext.get(None, set()) if n.startswith("regex_automata::") or n.startswith("regex_syntax::")}
+        unknown = sorted(ext.get(None, set()) - audited)
+        badc = sorted(n for cls in ("nondet", "io", "interior") for n in ext.get(cls, set()))
+        ctx.units["deps_%s" % crate] = {"bodies": len(jp.bodies), "matcher_closure": len(C), "external_by_class": {str(k): len(v) for k, v in ext.items()}, "audited_regex_callees": sorted(audited)}
+        if badc:
+            for n in badc:
+                ctx.fail("C03-R5", crate, "call " + n, "the question matcher reaches a nondeterministic / stateful / IO callee")
+        if unknown:
+            for n in unknown:
+                ctx.fail("C03-R5", crate, "call " + n, "unmodelled external callee reached from the question matcher of %s" % crate)
+        if not badc and not unknown:
+            ctx.ok("C03-R5", "thorough: every callee leaving %s from the matcher closure is pure/allocating/diverging, or one of %d regex_automata / regex_syntax entry points (audited exception)" % (crate, len(audited)))
+
+
 def run(ctx):
     ctx.rule("C03-R1", "no static mut / non-Freeze static / thread_local in the crate")
     ctx.rule("C03-R2", "no UnsafeCell reachable from Engine/SpeechGenerator/Vocoder/VoiceSet/Voice/Condition except audited ADTs")
@@ -404,6 +458,8 @@ def run(ctx):
                 else:
                     ctx.fail("C03-R8", ty, "impl Clone", "hand-written Clone impl: a clone need not equal the original", cm.loc_of(im["span"]))
 
+    if ctx.tier == "thorough":
+        deps_purity(ctx)
     ctx.assume("rustc's MIR construction and trait resolution are correct")
     ctx.assume("model table of external callees (jbv/model.py): one line per family with reason")
     ctx.assume("regex_automata's cache pool does not influence match results (audited exception)")
